@@ -99,7 +99,7 @@ var c09Menu = []string{"rmdir", "swap", "xbit", "file2dir", "dir2file", "mkdirs"
 
 func c09Content(r *rand.Rand) []byte {
 	sizes := []int{0, 1, 17, 300, 2000, 5000, 40000, 70000}
-	return fsx.UniqueToken(r, sizes[r.Intn(len(sizes))])
+	return content(r, sizes[r.Intn(len(sizes))])
 }
 
 // c09MakePlan builds tree and plan as a pure function of (seed, plan index).
@@ -180,7 +180,7 @@ func c09MakePlan(seed int64, planIndex int, big bool) *c09Plan {
 			p.roles[base], p.roles[base+"_f1"], p.roles[base+"_f2"], p.roles[base+"_l"], p.roles[base+"_sub"], p.roles[base+"_g"] =
 				"old-dir", "old-file", "old-file", "old-symlink", "old-dir", "old-file"
 			if k == "bigrm" {
-				for j := 0; j < 3000; j++ {
+				for j := 0; j < 1500; j++ {
 					name := fmt.Sprintf("%s_n%d", base, j)
 					p.tree[path+"/"+name] = &fsx.Node{Kind: fsx.KFile, Content: []byte(name), Mode: 0o644}
 				}
